@@ -13,7 +13,7 @@ import tzscan
 
 PID = 'C13'
 MANIFEST = dict(
-    text='Machine-checked proof (Coq): for every pattern over the handled (H M S I k l s), coarse (date/zone) and rewritten (r R T) strftime conversions and literals, with at most one of %Qms/%Qus/%Qns at any position, in GMT or in local time for every zone satisfying zone_ok (changes of offset/abbreviation only at epoch-aligned quarter hours, offsets multiples of 900 s), and for every sequence of instants (increasing, repeated, decreasing), the text produced by the model of TimestampFormatter/StringFromTime equals strftime of the instant with the specifier replaced by the zero-padded fraction (C13_gmt, C13_local, C13_frac), and two different specifiers or %X are rejected (C13_rejects); libc is an oracle with hypotheses H1-H3 stated in the theorems and sampled against the real libc on every run. Refutations kept visible: conversions embedding the time of day that are cached (C13_fine_refuted, D8), zones changing offset off the quarter-hour grid (C13_offgrid_refuted, D9), the same specifier twice is not rejected (C13_same_spec_refuted), %% directly before r R T X Q is misparsed (C13_pct_refuted). Tied to the real classes by differential runs of the extracted model (oracle tables filled from the real libc per case) plus a direct property monitor; tools/tzscan.py checks zone_ok on every TZif file for 2001-2100.',
+    text='Machine-checked proof (Coq): for every pattern over the handled (H M S I k l s), coarse (date/zone) and rewritten (r R T) strftime conversions and literals, with at most one of %Qms/%Qus/%Qns at any position, in GMT or in local time for every zone satisfying zone_ok (changes of offset/abbreviation only at epoch-aligned quarter hours, offsets multiples of 900 s), and for every sequence of instants (increasing, repeated, decreasing), the text produced by the model of TimestampFormatter/StringFromTime equals strftime of the instant with the specifier replaced by the zero-padded fraction (C13_gmt, C13_local, C13_frac), and two different specifiers or %X are rejected (C13_rejects); libc is an oracle with hypotheses H1-H3 stated in the theorems and sampled against the real libc on every run. Refutations kept visible: conversions embedding the time of day that are cached (C13_fine_refuted, D8), zones changing offset off the quarter-hour grid (C13_offgrid_refuted, D9), the same specifier twice is not rejected (C13_same_spec_refuted), %% directly before r R T X Q is misparsed (C13_pct_refuted); glibc flag forms such as %-H are outside the classified universe and go stale like D8 (finding N3, replayed on the code, not part of the theorems). Tied to the real classes by differential runs of the extracted model (oracle tables filled from the real libc per case) plus a direct property monitor; tools/tzscan.py checks zone_ok on every TZif file for 2001-2100.',
     design='5 C13', technique='Coq invariant proof over instant sequences with libc as a hypothesis-carrying oracle + extracted-model/implementation differential correspondence + tz database scan')
 TRUSTED = [
     'Coq 8.16.1 kernel (coqc, vm_compute for the refutation witnesses; no native_compute)',
@@ -29,6 +29,8 @@ HANDLED = 'HMSIkls'
 COARSE = list('YymdejaAbBhpPuwCGgVUWDFntzZx%') + ['EC', 'Ex', 'Ey', 'EY', 'Od', 'Oe', 'Om', 'Ou', 'Ow', 'Oy', 'OU', 'OV', 'OW']
 REWRITTEN = 'rRT'
 FINE = ['c', 'Ec', 'EX', 'OH', 'OM', 'OS', 'OI']
+GLIBC_FLAGS = '-_0^#'          # %-H %_M %0S ... (glibc extension): not handled, cached like date fields (finding N3)
+TIME_LETTERS = 'HMSIklsrRTc'
 FRACS = {'ms': (3, 10 ** 6), 'us': (6, 10 ** 3), 'ns': (9, 1)}
 SPECIAL_Q = 'HMSIkls'          # the property's own exclusion: no %% directly before these
 SPECIAL_N2 = 'rRTXQ'           # finding N2: %% directly before these is misparsed as well
@@ -65,6 +67,8 @@ def tokenize(pat):
             items.append(('F', pat[i + 2:i + 4])); i += 4
         elif n1 in (b'E', b'O') and i + 2 < len(pat):
             items.append(('C', pat[i + 1:i + 3])); i += 3
+        elif n1 in (b'-', b'_', b'0', b'^', b'#') and i + 2 < len(pat):      # one glibc flag character
+            items.append(('C', pat[i + 1:i + 3])); i += 3
         else:
             items.append(('C', n1)); i += 2
     fl()
@@ -78,6 +82,7 @@ def conv_class(body):
     if len(b) == 1 and b in REWRITTEN: return 'rewritten'
     if b == 'X': return 'rejected'
     if b in FINE: return 'fine'
+    if len(b) == 2 and b[0] in GLIBC_FLAGS and b[1] in TIME_LETTERS: return 'fine'      # finding N3
     return None
 
 
@@ -405,6 +410,8 @@ def match_finding(c, fs):
         s = f['signature']
         if s['kind'] == 'fine-conversion':
             if any(it == ('C', s['conversion'][1:].encode()) for it in items): return f
+        elif s['kind'] == 'fine-flagged':
+            if any(it[0] == 'C' and len(it[1]) == 2 and chr(it[1][0]) == s['flag'] and chr(it[1][1]) in TIME_LETTERS for it in items): return f
         elif s['kind'] == 'zone-offgrid':
             if c.local and c.zone == s['zone']:
                 for tr in s['instants']:
@@ -538,7 +545,7 @@ def gen_malformed(rng, n, zones):
             items.insert(rng.randint(0, len(items)), ('C', b'%')); pat = flat(items)
             items = tokenize(pat.replace(b'%%', b'%%' + rng.choice(HANDLED).encode(), 1))
         elif r < 0.85:
-            items.insert(rng.randint(0, len(items)), ('L', rng.choice([b'%-H', b'%_d', b'%5Y', b'%+', b'%Qxs', b'%Q', b'%EH', b'%Oz', b'%^a'])))
+            items.insert(rng.randint(0, len(items)), ('L', rng.choice([b'%-d', b'%_d', b'%5Y', b'%+', b'%Qxs', b'%Q', b'%EH', b'%Oz', b'%^a', b'%10H'])))
         else:
             items.append(('L', b'%'))
         zn = rng.choice(zones); local = rng.random() < 0.5
@@ -558,6 +565,11 @@ def gen_known(rng, fs):
             for pat, local, zn in ((cv, 0, 'UTC'), (b'%Y ' + cv + b'.%Qus %H', 1, 'Asia/Kolkata')):
                 t = rng.randrange(T_LO, T_HI) // 900 * 900 + 5
                 cases.append(Case(local, zn, pat, [t * E9, (t + 7) * E9 + 5000, (t + 3700) * E9], 'known'))
+        elif s['kind'] == 'fine-flagged':
+            fl = s['flag'].encode()
+            for pat in (b'%' + fl + b'H:%' + fl + b'M:%' + fl + b'S', b'%d %' + fl + b'I.%Qms %' + fl + b'k'):
+                t = rng.randrange(T_LO, T_HI) // 900 * 900 + 5
+                cases.append(Case(0, 'UTC', pat, [t * E9, (t + 61) * E9 + 5000, (t + 3700) * E9], 'known'))
         elif s['kind'] == 'zone-offgrid':
             ins = s['instants']
             for tr in [ins[0], ins[-1], rng.choice(ins)]:
@@ -705,7 +717,7 @@ def run(tier):
         ck.violation('no-failing-input-found', '; '.join(broken))
     total = sum(streams.values())
     return ck.finish(trusted=TRUSTED, samples=[c.short() for c in (structured[:2] + structured[-2:])],
-                     rule='case = "time <local> <len zone..> <len pattern..> <n> ns.." + oracle tables filled from the real libc; structured stream: 1-8 items over handled/coarse/rewritten conversions and literals (NO fine conversions %c %Ec %EX %OH %OM %OS %OI, no %% directly before H M S I k l s r R T X Q: those are exercised in the dedicated known-finding stream, which must fail exactly as the open findings say), one of %Qms/%Qus/%Qns at a random position in 80% of the patterns plus a sweep of every position, local mode 60%, zones round-robin over the tier\'s zone list (quick: 14 zones; thorough: every TZif zone outside posix/ and right/), %s only in local mode or under TZ=UTC, only for t >= 10^9 and not inside a repeated local hour without a DST flag change (libc mktime ambiguity; such cases are counted as skipped); instants anchored at second/minute/hour/GMT noon/GMT midnight/local noon/local midnight/quarter hour/every kind of zone transition taken from the TZif file (off-grid ones included: they must match a listed D9 instant)/year end/10^9, then steps of +-{1 s,1 h,12 h,1 d,1 y, 899..901 s}, repeats and jumps backwards; malformed stream: two different specifiers, %X, and patterns outside the quantifier (model vs code only); non-trivial = structured/corpus case with a handled or rewritten conversion whose cache was patched at least once and bypassed/rebuilt at least once; distinct by (mode, zone, pattern, instants)',
+                     rule='case = "time <local> <len zone..> <len pattern..> <n> ns.." + oracle tables filled from the real libc; structured stream: 1-8 items over handled/coarse/rewritten conversions and literals (NO fine conversions %c %Ec %EX %OH %OM %OS %OI, no glibc flag forms %-H %_M ..., no %% directly before H M S I k l s r R T X Q: those are exercised in the dedicated known-finding stream, which must fail exactly as the open findings say), one of %Qms/%Qus/%Qns at a random position in 80% of the patterns plus a sweep of every position, local mode 60%, zones round-robin over the tier\'s zone list (quick: 14 zones; thorough: every TZif zone outside posix/ and right/), %s only in local mode or under TZ=UTC, only for t >= 10^9 and not inside a repeated local hour without a DST flag change (libc mktime ambiguity; such cases are counted as skipped); instants anchored at second/minute/hour/GMT noon/GMT midnight/local noon/local midnight/quarter hour/every kind of zone transition taken from the TZif file (off-grid ones included: they must match a listed D9 instant)/year end/10^9, then steps of +-{1 s,1 h,12 h,1 d,1 y, 899..901 s}, repeats and jumps backwards; malformed stream: two different specifiers, %X, and patterns outside the quantifier (model vs code only); non-trivial = structured/corpus case with a handled or rewritten conversion whose cache was patched at least once and bypassed/rebuilt at least once; distinct by (mode, zone, pattern, instants)',
                      evaluations=total, distinct_nontrivial=len(distinct), traces=total - ndis - nmon + known_hit,
                      extra_cov={'disagreements': ndis, 'monitor_failures': nmon, 'monitor_failures_matching_open_findings': known_hit,
                                 'streams': streams, 'anchor_histogram': hist, 'zones': len(zones_seen),
